@@ -7,6 +7,7 @@ import (
 	"fmt"
 	"sort"
 	"strconv"
+	"strings"
 	"time"
 
 	"go.opentelemetry.io/otel/trace/noop"
@@ -317,26 +318,47 @@ type c09SpellInput struct {
 	Range    string `json:"range"`
 	OffsetMS int    `json:"offset_ms"`
 	Offset   string `json:"offset,omitempty"`
+	// SubUS: the evaluation time lies that many microseconds after a whole second; Steps > 0: a range query of that many
+	// one-second steps from there instead of an instant one
+	SubUS int `json:"sub_us,omitempty"`
+	Steps int `json:"steps,omitempty"`
+	// LongLines: the lines are 3000 bytes long and differ in their last byte only (every line its own series)
+	LongLines bool `json:"long_lines,omitempty"`
 }
 
 func c09SpellCheck(r *vkit.Run, in c09SpellInput) {
 	r.Begin("C09/spelling", in)
 	ms := int64(1e6)
 	base := c09Base * sec
-	t := base + 20*sec
+	t := base + 20*sec + int64(in.SubUS)*1000
 	// samples exactly on the two edges, one nanosecond outside each, and one in the middle
 	left, right := t-int64(in.OffsetMS)*ms-int64(in.RangeMS)*ms, t-int64(in.OffsetMS)*ms
 	var data []mockq.Rec
 	for i, ts := range []int64{left - 1, left, (left + right) / 2, right, right + 1} {
-		data = append(data, mockq.Rec{TS: ts, Line: "l" + strconv.Itoa(i), Labels: []mockq.KV{{K: "s", V: "a"}}})
+		line := "l" + strconv.Itoa(i)
+		if in.LongLines {
+			line = strings.Repeat("L", 2999) + strconv.Itoa(i)
+		}
+		data = append(data, mockq.Rec{TS: ts, Line: line, Labels: []mockq.KV{{K: "s", V: "a"}}})
 	}
-	expr := &refmodel.VecAgg{Op: "sum", X: &refmodel.RangeAgg{Op: "count_over_time", RangeNS: int64(in.RangeMS) * ms, OffsetNS: int64(in.OffsetMS) * ms, RangeText: in.Range, OffsetText: in.Offset}}
+	var expr refmodel.Expr = &refmodel.VecAgg{Op: "sum", X: &refmodel.RangeAgg{Op: "count_over_time", RangeNS: int64(in.RangeMS) * ms, OffsetNS: int64(in.OffsetMS) * ms, RangeText: in.Range, OffsetText: in.Offset}}
+	if in.LongLines || in.SubUS > 0 {
+		// (every line its own series: which samples are inside the window shows, not only how many)
+		expr = &refmodel.RangeAgg{Op: "count_over_time", RangeNS: int64(in.RangeMS) * ms, OffsetNS: int64(in.OffsetMS) * ms, RangeText: in.Range, OffsetText: in.Offset}
+	}
 	q := mockq.New(data)
 	q.TimeFilter = false
-	res := evalEngineLimit(nil, q, expr.Text(), t, t, 0, -1)
+	times := []int64{t}
+	end, step := t, time.Duration(0)
+	if in.Steps > 0 {
+		step = time.Second
+		end = t + int64(in.Steps)*sec
+		times = gridTimes(t, end, sec)
+	}
+	res := evalEngineLimit(nil, q, expr.Text(), t, end, step, -1)
 	r.Eval()
-	r.Step(1)
-	exp, _, _, _ := expectGrid(expr, data, []int64{t}, refmodel.Convention{})
+	r.Step(len(times))
+	exp, _, _, _ := expectGrid(expr, data, times, refmodel.Convention{})
 	if why := compare(res, exp, nil); why != "" {
 		r.Fail("C09/spelling", in, nil, map[string]any{"query": expr.Text(), "result": res.String()}, exp,
 			fmt.Sprintf("%s with samples on both edges of the window, one nanosecond outside each and one inside: %s", expr.Text(), why), "")
@@ -382,5 +404,20 @@ func c09SpellRun(r *vkit.Run, idx *int) {
 			c09SpellCheck(r, c09SpellInput{RangeMS: 2000, Range: "2s", OffsetMS: rg, Offset: sp})
 		}
 		r.State(fmt.Sprint("spell", rg))
+	}
+	// evaluation times off the millisecond grid (instant and three steps), and lines of 3000 bytes that differ at the end
+	for _, rg := range []int{1000, 2000, 4100} {
+		*idx++
+		if !r.Mine(*idx) || r.Stop() {
+			continue
+		}
+		for _, sub := range []int{1, 250, 999} {
+			for _, steps := range []int{0, 3} {
+				c09SpellCheck(r, c09SpellInput{RangeMS: rg, Range: strconv.Itoa(rg) + "ms", SubUS: sub, Steps: steps})
+				c09SpellCheck(r, c09SpellInput{RangeMS: 2000, Range: "2s", OffsetMS: rg, Offset: strconv.Itoa(rg) + "ms", SubUS: sub, Steps: steps})
+			}
+		}
+		c09SpellCheck(r, c09SpellInput{RangeMS: rg, Range: strconv.Itoa(rg) + "ms", LongLines: true})
+		c09SpellCheck(r, c09SpellInput{RangeMS: rg, Range: strconv.Itoa(rg) + "ms", LongLines: true, Steps: 3})
 	}
 }
